@@ -306,6 +306,49 @@ func registerLife(prop, title string) {
 					}})
 				}
 			}
+			if prop == "C02" {
+				// "override one service": an output of a scoped multi-output registration is removed before
+				// Build and its identity registered again by another constructor; both resolved concurrently
+				for _, form := range []string{"resobj", "multi"} {
+					ospec := kit.Spec{Regs: []kit.Reg{
+						{ID: 0, Life: "scoped", ResObj: form == "resobj", Outs: []kit.Out{{T: "D0"}, {T: "D1"}}},
+						{ID: 1, Life: "scoped", Outs: []kit.Out{{T: "D1"}}, RemoveFirst: []kit.Dep{{T: "D1"}}},
+						{ID: 2, Life: "scoped", Outs: []kit.Out{{T: "P0"}}, Deps: []kit.Dep{{T: "D0"}}},
+						{ID: 3, Life: "scoped", In: true, Outs: []kit.Out{{T: "P1"}}, Deps: []kit.Dep{{T: "D1"}}},
+					}}
+					om := NewModel(&ospec)
+					mk := func(name string, threads ...[]Op) *Scenario {
+						return &Scenario{Name: "C02-conc/overridden-output-" + form + "-" + name, Spec: ospec, Setup: []Op{{Kind: "scope", Bind: "s1"}}, Threads: threads,
+							Final: []Op{{Kind: "get", Scope: "s1", T: "D1"}, {Kind: "get", Scope: "s1", T: "D0"}, {Kind: "get", Scope: "s1", T: "P1"}, {Kind: "settle"}, {Kind: "close", Scope: ""}, {Kind: "settle"}}}
+					}
+					for _, sc := range []*Scenario{
+						mk("direct", []Op{{Kind: "get", Scope: "s1", T: "D0"}}, []Op{{Kind: "get", Scope: "s1", T: "D1"}}),
+						mk("dependents", []Op{{Kind: "get", Scope: "s1", T: "P0"}}, []Op{{Kind: "get", Scope: "s1", T: "P1"}}),
+					} {
+						sc := sc
+						jobs = append(jobs, mc.Job{Name: sc.Name, Weight: 40, Run: func(r *mc.Report) {
+							exploreScenario(r, sc, mc.Bounds{Preempt: pb}, func(e *Env, s *vsched.Sched) []Finding {
+								fs := filterClauses(prop, lifeOracle(e, om))
+								// by identity: whatever the scope handed out for D1 is one instance
+								var first *kit.Inst
+								for _, rr := range e.Results {
+									if rr.Op.Kind == "get" && rr.Op.T == "D1" && rr.Err == nil && rr.Panic == nil && !rr.Skipped {
+										in := kit.InstOf(rr.Val)
+										if first != nil && in != first {
+											fs = append(fs, Finding{feat("clause", "two-instances-in-scope", "by", "identity"),
+												fmt.Sprintf("scope s1 answered D1 with %s and later with %s", first.Label(), in.Label())})
+										}
+										if first == nil {
+											first = in
+										}
+									}
+								}
+								return fs
+							})
+						}})
+					}
+				}
+			}
 			spec := lifeSpec()
 			m := NewModel(&spec)
 			for _, sc := range lifeConcScenarios(prop) {
@@ -333,6 +376,7 @@ func registerLife(prop, title string) {
 				jobs = append(jobs, mc.Job{Name: "C01-removed-outputs", Run: c01RemovedOutputs})
 				jobs = append(jobs, mc.Job{Name: "C01-nil-output", Run: c01NilOutput})
 				jobs = append(jobs, twoProvJob(prop, depth4(tier)))
+				jobs = append(jobs, c01LocatorJobs(tier)...)
 			}
 			if prop == "C03" {
 				jobs = append(jobs, rbJobs("C03", depth4(tier)+1)...)
